@@ -6,6 +6,7 @@ import (
 	"bytes"
 	"encoding/binary"
 	"encoding/json"
+	"errors"
 	"fmt"
 	"io"
 	"log"
@@ -498,17 +499,23 @@ func pipeExchange(cd int, cmd int32, mode int, arg Sx) Sx {
 }
 
 // recording endpoint
+// the endpoint a request is bound to is part of the input: it may report that it is no longer
+// running (closing / draining) while SendPacket still takes packets, and SendPacket may fail
 type recorder struct {
-	sent []fatchoy.IPacket
+	sent    []fatchoy.IPacket
+	stopped bool  // IsRunning() == false
+	result  error // what SendPacket returns (after recording the packet)
 }
+
+var errSendRefused = errors.New("endpoint: send refused")
 
 func (r *recorder) NodeID() fatchoy.NodeID             { return 0 }
 func (r *recorder) SetNodeID(fatchoy.NodeID)           {}
 func (r *recorder) RemoteAddr() string                 { return "" }
-func (r *recorder) SendPacket(p fatchoy.IPacket) error { r.sent = append(r.sent, p); return nil }
+func (r *recorder) SendPacket(p fatchoy.IPacket) error { r.sent = append(r.sent, p); return r.result }
 func (r *recorder) Close() error                       { return nil }
 func (r *recorder) ForceClose(error)                   {}
-func (r *recorder) IsRunning() bool                    { return true }
+func (r *recorder) IsRunning() bool                    { return !r.stopped }
 func (r *recorder) SetUserData(interface{})            {}
 func (r *recorder) UserData() interface{}              { return nil }
 
@@ -715,25 +722,36 @@ func run1(in Sx) Sx {
 		h := hdrOf(in.At(1))
 		p := h.packet()
 		e1 := &recorder{}
+		// optional 6th element: the endpoint's state, bit 0 = not running, bit 1 = SendPacket fails
+		if in.Len() > 5 {
+			st := in.At(5).AsInt()
+			e1.stopped = st&1 != 0
+			if st&2 != 0 {
+				e1.result = errSendRefused
+			}
+		}
 		p.SetEndpoint(e1)
 		mode, command, arg := in.At(2).AsInt(), int32(in.At(3).Int64()), in.At(4)
+		var ret error
 		pn, _ := Catch(func() {
 			switch mode {
 			case 0:
-				p.ReplyWith(command, bodyValue(arg))
+				ret = p.ReplyWith(command, bodyValue(arg))
 			case 1:
-				p.RefuseWith(command, int32(arg.Int64()))
+				ret = p.RefuseWith(command, int32(arg.Int64()))
 			case 2:
-				p.Refuse(int32(arg.Int64()))
+				ret = p.Refuse(int32(arg.Int64()))
 			case 3:
-				p.Reply(goValue(arg).(proto.Message))
+				ret = p.Reply(goValue(arg).(proto.Message))
 			default:
-				p.ReplyWith(command, goValue(arg))
+				ret = p.ReplyWith(command, goValue(arg))
 			}
 		})
-		if pn || len(e1.sent) == 0 {
+		// handed to SendPacket of exactly this endpoint exactly once, SendPacket's own result returned
+		if pn || len(e1.sent) != 1 || ret != e1.result {
 			return List(Int(0))
 		}
+		e1.result = nil
 		q := e1.sent[len(e1.sent)-1]
 		// the exported views nobody else looks at: the request is still bound to its endpoint, the
 		// reply is not bound to any, and both print
@@ -1235,15 +1253,17 @@ func gen(a Args, out *Out) {
 		if rng.Chance(1, 3) {
 			h.cmd = int32(rng.PickI64(idPingReq, idPingAck, idString, idInt64))
 		}
+		epState := rng.Intn(4) // running / closing x SendPacket succeeds / fails
+		out.Count("endpoint-state:" + strconv.Itoa(epState))
 		switch rng.Intn(5) {
 		case 4:
 			g := genGov(rng, out)
-			emit("reply-value-"+kindOf(g), List(Int(4), h.sx(), Int(4), Int(command), g))
+			emit("reply-value-"+kindOf(g), List(Int(4), h.sx(), Int(4), Int(command), g, Int(int64(epState))))
 		case 3:
 			g := genProto()
 			var mid int32
 			Catch(func() { mid = packet.GetMessageIDOf(goValue(g).(proto.Message)) })
-			emit("reply-proto", List(Int(4), h.sx(), Int(3), Int(int64(mid)), g))
+			emit("reply-proto", List(Int(4), h.sx(), Int(3), Int(int64(mid)), g, Int(int64(epState))))
 		case 0:
 			var b Sx
 			switch rng.Intn(5) {
@@ -1258,16 +1278,16 @@ func gen(a Args, out *Out) {
 			default:
 				b = List(Int(4), Bytes(randBytes(rng)))
 			}
-			emit("reply", List(Int(4), h.sx(), Int(0), Int(command), b))
+			emit("reply", List(Int(4), h.sx(), Int(0), Int(command), b, Int(int64(epState))))
 		case 1:
-			emit("refuse-with", List(Int(4), h.sx(), Int(1), Int(command), Int(genErrno(rng))))
+			emit("refuse-with", List(Int(4), h.sx(), Int(1), Int(command), Int(genErrno(rng)), Int(int64(epState))))
 		default:
 			if rng.Bool() {
 				h.cmd = idPingReq // a request whose paired Ack id is registered
 			}
 			var ack int32
 			Catch(func() { ack = packet.GetPairingAckID(h.cmd) })
-			emit("refuse", List(Int(4), h.sx(), Int(2), Int(int64(ack)), Int(genErrno(rng))))
+			emit("refuse", List(Int(4), h.sx(), Int(2), Int(int64(ack)), Int(genErrno(rng)), Int(int64(epState))))
 		}
 	}
 	// the error branches of the marshal layer: a receiver without the cipher, and senders that set
